@@ -25,6 +25,14 @@ Integrator* makeIntegrator(int k, const System& sys) {
         case SEE: return new SemiExplicitEulerIntegrator(sys, 0.002); case SEE2: return new SemiExplicitEuler2Integrator(sys); default: return new CPodesIntegrator(sys);
     }
 }
+// Do-nothing triggered handler with a time-only witness sin(w (t - c)): forces the integrator to localize events
+// inside steps (bisection probes, backed-up advanced states); returned states after an event are judged like any other.
+struct TimeWitness : public TriggeredEventHandler {
+    double w, c;
+    TimeWitness(double w_, double c_) : TriggeredEventHandler(Stage::Time), w(w_), c(c_) {}
+    Real getValue(const State& st) const override { return std::sin(w * (st.getTime() - c)); }
+    void handleEvent(State&, Real, bool&) const override {}
+};
 Real nrm(const Vector& v, bool inf) { if (!v.size()) return 0; return inf ? v.normInf() : v.normRMS(); }
 
 void property(const pbt::Tape& t, pbt::Ctx& ctx) {
@@ -38,12 +46,17 @@ void property(const pbt::Tape& t, pbt::Ctx& ctx) {
     consgen::fitToState(cm, 0.0);
     const int integ = g.pick(NumInteg);
     const double acc = std::pow(10.0, -2.0 - 3.0 * g.unit());
-    const bool inf = g.boolean(), setTol = g.boolean(), projEvery = g.boolean(), interp = !g.chance(1, 4), projInterp = !g.chance(1, 4), everyStep = g.chance(1, 4);
+    const bool inf = g.boolean(), setTol = g.boolean(), projEvery = g.boolean(), interp = !g.chance(1, 4), everyStep = g.chance(1, 4);
+    const int projMode = g.pick(4);            // 0,1: option left at its documented default ("true"); 2: set true; 3: set false
+    const bool projInterp = projMode != 3;
     const double tolFactor = g.logreal(0.01, 1);
     const double T = 0.15 + 0.35 * g.unit(), dt = 0.004 + 0.03 * g.unit();
+    // (CPodes does its own root finding and has several recorded event findings under C22; its constrained
+    // report states are the known finding below. Triggered events are generated for the other eight integrators.)
+    const bool withEvents = g.boolean() && integ != CPodes; const double evW = 20 + 60 * g.unit(), evC = 0.01 + 0.05 * g.unit();   // witness zero every pi/w = 0.04..0.16
     Vec3 grav(g.real(-10, 10), g.real(-10, 10), g.real(-10, 10));
-    if (ctx.wantDesc) { cm.describe(ctx.desc); ctx.desc << "integrator=" << integName(integ) << " accuracy=" << acc << " infNorm=" << inf << " consTol=" << (setTol ? acc * tolFactor : -1) << " projectEveryStep=" << projEvery
-        << " allowInterpolation=" << interp << " projectInterpolated=" << projInterp << " returnEveryStep=" << everyStep << " T=" << T << " dt=" << dt << " gravity=" << grav << "\n"; }
+    if (ctx.wantDesc) { cm.describe(ctx.desc); ctx.desc << "integrator=" << integName(integ) << " events=" << withEvents << " accuracy=" << acc << " infNorm=" << inf << " consTol=" << (setTol ? acc * tolFactor : -1) << " projectEveryStep=" << projEvery
+        << " allowInterpolation=" << interp << " projectInterpolated=" << (projMode < 2 ? "default" : projInterp ? "true" : "false") << " returnEveryStep=" << everyStep << " T=" << T << " dt=" << dt << " gravity=" << grav << "\n"; }
     consgen::labelModel(ctx, cm);
     ctx.label(std::string("integ:") + integName(integ));
     // Feasibility precondition: a time-varying (or arbitrary) value imposed on one QUATERNION component, or on a
@@ -58,6 +71,7 @@ void property(const pbt::Tape& t, pbt::Ctx& ctx) {
     Force::UniformGravity(m.forces, m.matter, grav);
     if (m.mb.size() >= 2) Force::TwoPointLinearSpring(m.forces, m.mb[0], Vec3(0.3, 0.2, -0.1), m.mb.back(), Vec3(0.1, 0, 0.2), 5.0, 0.7);
     m.forces.setNumberOfThreads(1);
+    if (withEvents) { m.sys.addEventHandler(new TimeWitness(evW, evC)); ctx.label("with-triggered-events"); }
     m.finish(cm.spec); m.setState(cm.spec);
     State& s = m.state;
     if (s.getNU() == 0) { ctx.reject("nu=0"); return; }
@@ -76,16 +90,19 @@ void property(const pbt::Tape& t, pbt::Ctx& ctx) {
 
     std::unique_ptr<Integrator> in(makeIntegrator(integ, m.sys));
     in->setAccuracy(acc); in->setUseInfinityNorm(inf); if (setTol) in->setConstraintTolerance(acc * tolFactor);
-    in->setProjectEveryStep(projEvery); in->setAllowInterpolation(interp); in->setProjectInterpolatedStates(projInterp); in->setReturnEveryInternalStep(everyStep);
+    in->setProjectEveryStep(projEvery); in->setAllowInterpolation(interp); if (projMode >= 2) in->setProjectInterpolatedStates(projInterp); in->setReturnEveryInternalStep(everyStep);
     if (integ == EE) in->setFixedStepSize(0.002);
     in->setInternalStepLimit(2500);   // a run that needs more internal steps is ended (classified), never judged as failing
     int nStates = 0, nInterp = 0, nq4 = 0; bool holo = false, nonholo = false; double worst = 0;
     const bool cpodesKnown = integ == CPodes && ctx.isKnownListed("cpodes-report-states-off-manifold");
     try {
-        in->initialize(s);
-        int guard = 0;
+        std::unique_ptr<TimeStepper> ts;
+        if (withEvents) { ts.reset(new TimeStepper(m.sys, *in)); ts->setReportAllSignificantStates(true); ts->initialize(s); }
+        else in->initialize(s);
+        int guard = 0, nEvents = 0;
         for (double tr = dt; guard < 4000; ++guard) {
-            Integrator::SuccessfulStepStatus st = in->stepTo(tr);
+            Integrator::SuccessfulStepStatus st = withEvents ? ts->stepTo(tr) : in->stepTo(tr);
+            if (st == Integrator::ReachedEventTrigger || st == Integrator::StartOfContinuousInterval) nEvents++;
             const State& c = in->getState(); m.sys.realize(c, Stage::Velocity);
             const double tol = in->getConstraintToleranceInUse();
             const bool isInterp = in->isStateInterpolated();
@@ -104,8 +121,8 @@ void property(const pbt::Tape& t, pbt::Ctx& ctx) {
             if (cpodesKnown && st != Integrator::TimeHasAdvanced) { if (ctx.known("cpodes-report-states-off-manifold")) judged = false; }
             if (judged) {
                 worst = std::max(worst, std::max(n1, n2) / tol);
-                if (!(n1 <= tol * (1 + 1e-9))) { ctx.fail(std::string(integName(integ)) + ": returned state at t=" + S(c.getTime()) + (isInterp ? " (interpolated)" : "") + " has position-constraint norm " + S(n1) + " > tolerance in use " + S(tol)); return; }
-                if (!(n2 <= tol * (1 + 1e-9))) { ctx.fail(std::string(integName(integ)) + ": returned state at t=" + S(c.getTime()) + (isInterp ? " (interpolated)" : "") + " has velocity-constraint norm " + S(n2) + " > tolerance in use " + S(tol)); return; }
+                if (!(n1 <= tol * (1 + 1e-6))) { ctx.fail(std::string(integName(integ)) + ": returned state at t=" + S(c.getTime()) + (isInterp ? " (interpolated)" : "") + " has position-constraint norm " + S(n1) + " > tolerance in use " + S(tol)); return; }
+                if (!(n2 <= tol * (1 + 1e-6))) { ctx.fail(std::string(integName(integ)) + ": returned state at t=" + S(c.getTime()) + (isInterp ? " (interpolated)" : "") + " has velocity-constraint norm " + S(n2) + " > tolerance in use " + S(tol)); return; }
             }
             if (st == Integrator::EndOfSimulation) break;
             if (st == Integrator::ReachedStepLimit) { ctx.label("step-limit-reached"); break; }
@@ -113,7 +130,8 @@ void property(const pbt::Tape& t, pbt::Ctx& ctx) {
             if (st == Integrator::ReachedReportTime || c.getTime() >= tr) tr += dt;
         }
     } catch (const std::exception& e) { ctx.reject("integrator-exception"); if (ctx.wantDesc) ctx.desc << "exception: " << std::string(e.what()).substr(0, 300) << "\n"; return; }
-    if (ctx.wantDesc) ctx.desc << "states=" << nStates << " interpolated=" << nInterp << " worst norm/tol=" << worst << "\n";
+    if (withEvents) ctx.label("events-driven-through-TimeStepper");
+    if (ctx.wantDesc) ctx.desc << "withEvents=" << withEvents << " states=" << nStates << " interpolated=" << nInterp << " worst norm/tol=" << worst << "\n";
     ctx.nontrivial(holo && (nq4 > 0 || nonholo) && nInterp > 0);
     if (nInterp > 0) ctx.label("interpolated-states-examined"); if (nonholo) ctx.label("nonholonomic"); if (nq4 > 0) ctx.label("quaternions"); if (holo) ctx.label("holonomic");
     ctx.label(worst < 0.1 ? "worst<0.1tol" : worst < 0.9 ? "worst<0.9tol" : "worst>=0.9tol");
@@ -124,7 +142,7 @@ pbt::Config config() {
     c.quick = {800, 3000, 12, 30}; c.thorough = {8000, 30000, 12, 300};
     c.rule = "rapidcheck tape -> consgen model (mbgen tree of 1..5 bodies + 1..3 constraints of any built-in type), uniform gravity + one spring, assembled with project(1e-9); integrator in the nine built-ins; accuracy 1e-2..1e-5; RMS/infinity norm; explicit or default constraint tolerance; project-every-step, interpolation, interpolated-state projection, return-every-step generated; report grid 0.004..0.034 over T = 0.15..0.5. Non-trivial: >= 1 holonomic constraint and (a quaternion in use or a nonholonomic constraint) and >= 1 interpolated state examined; distinct by tape hash.";
     c.assumptions = {"norm = max(norm(qerr[0:mp].*qerrWeights), norm(quaternion rows)) and norm(uerr.*uerrWeights), RMS or infinity as configured (the documented projection norm, probe Y/AD)", "assembly failures, integrator exceptions and state-dependent degenerate geometry are rejections", "interpolated states are judged only when interpolated-state projection is on"};
-    c.requiredLabels = {"integ:ExplicitEuler", "integ:CPodes", "integ:Verlet", "integ:RungeKuttaMerson", "interpolated-states-examined", "nonholonomic", "quaternions"};
+    c.requiredLabels = {"with-triggered-events", "integ:ExplicitEuler", "integ:CPodes", "integ:Verlet", "integ:RungeKuttaMerson", "interpolated-states-examined", "nonholonomic", "quaternions"};
     c.directed.push_back({"cpodes-report-state-off-manifold", "cpodes-report-states-off-manifold", [](pbt::Ctx& ctx) {
         // pendulum on a rod constraint, CPodes, report grid finer than the steps
         MultibodySystem sys; SimbodyMatterSubsystem matter(sys); GeneralForceSubsystem forces(sys); Force::UniformGravity(forces, matter, Vec3(0, -9.8, 0));
